@@ -311,7 +311,7 @@ fn add_assign_binary(dest: &mut [u64], src: &[u64])
                                     ' else { gk = gk + 1;'
                                     ' assert(gr * nrw + nrw <= new_height as int * nrw) by (nonlinear_arith) requires gr + 1 <= new_height as int, nrw >= 0; } }'),
                     'after': ('proof { let nrw = new_row_width as int; if gr < new_height as int { assert(gr * nrw + nrw <= new_height as int * nrw) by (nonlinear_arith) requires gr + 1 <= new_height as int, nrw >= 0; } }')}},
-         opt_inserts=[('if dest % new_row_width == 0 {', 'before',
+         hint_inserts=[('if dest % new_row_width == 0 {', 'before',
                        'proof { let nrw = new_row_width as int; if gk + 1 == nrw { assert((gr + 1) * nrw == gr * nrw + nrw) by (nonlinear_arith);'
                        ' assert((gr + 1) * old_row_width as int == gr * old_row_width as int + old_row_width as int) by (nonlinear_arith);'
                        ' lemma_fundamental_div_mod_converse(dest as int, nrw, gr + 1, 0); } else { lemma_fundamental_div_mod_converse(dest as int, nrw, gr, gk + 1); } }')],
